@@ -18,7 +18,8 @@ FUNCTIONS = [(PT.FILE, 'GULP_PairTabulation._write_pot'), (PT.FILE, 'GULP_PairTa
              (PT.F_INIT, 'writePotentials'), (SF.FILE, '_writeSetFLPairPots'), (SF.FILE, 'writeSetFL'), (ET.FILE, 'ADP_EAMTabulation.write'),
              (FF.FILE, '_writeHeader'), (FF.FILE, '_writeValueBlock'), (FF.FILE, 'writeFuncFL'),
              (XS.FILE, 'Excel_PairTabulation._populate_worksheet'), (XS.F_PT, '_r_value_iterator'), (XS.F_ET, '_rho_value_iterator'),
-             (XS.F_ET, 'Excel_EAMTabulation._add_eam_embed'), (XS.F_ET, 'Excel_EAMTabulation._add_eam_density')]
+             (XS.F_ET, 'Excel_EAMTabulation._add_eam_embed'), (XS.F_ET, 'Excel_EAMTabulation._add_eam_density'),
+             (XS.F_ET, 'Excel_FinnisSinclair_EAMTabulation._add_eam_density')]
 SPECSEQS = [GU.grows, FF.grid, FF.fcol, FF.ch1, FF.ch2, FF.ch3, XS.grid_seq]
 
 def lemmas():
